@@ -93,6 +93,9 @@ def render(e, env, budget=3):
         args = ", ".join("<closure>" if a["k"] == "Closure" else render(a, env, budget) for a in e["args"])
         return f"{render(e['recv'], env, budget)}.{e['method']}({args})"
     if k == "Call":
+        inl = _inline_closure(e, env)
+        if inl is not None and budget > 0:
+            return render(inl[0], inl[1], budget - 1)
         f = e["func"]["path"].split("::")[-1] if e["func"]["k"] == "Path" else "?"
         return f + "(" + ", ".join(render(a, env, budget) for a in e["args"]) + ")"
     if k == "Lit":
@@ -114,6 +117,27 @@ def render(e, env, budget=3):
     if k == "Range":
         return render(e.get("start"), env, budget) + ".." + render(e.get("end"), env, budget)
     return "<" + _head(e) + ">"
+
+
+def _inline_closure(call, env):
+    """`let keep = |x| p(x); .. keep(y)`: the body of a locally named closure with its parameters standing for the arguments, when
+    the body is a single expression (a named sub-test reads like the test written in place)"""
+    if call["func"]["k"] != "Path" or "::" in call["func"]["path"] or env is None:
+        return None
+    df = env.get(call["func"]["path"])
+    if df is None or df.kind != "let" or df.proj or df.init is None or df.init.get("k") != "Closure":
+        return None
+    clo = df.init
+    body = clo["body"]
+    while body["k"] == "Block" and len(body["stmts"]) == 1 and body["stmts"][0]["k"] == "ExprStmt" and not body["stmts"][0].get("semi"):
+        body = body["stmts"][0]["expr"]
+    if body["k"] == "Block" or len(clo["params"]) != len(call["args"]):
+        return None
+    cenv = df.env
+    for p, a in zip(clo["params"], call["args"]):
+        for name, proj in A.pat_bindings(p):
+            cenv = cenv.bind(name, A.Def("let", name, node=None, init=a, env=env, proj=proj))
+    return body, cenv
 
 
 def render_def(df, budget):
@@ -180,18 +204,25 @@ def nnf(t):
     return t
 
 
-def cond_key(repo, fn, envs, cond):
+def cond_key(repo, fn, envs, cond, env=None):
     """structural text of a condition expression"""
     if cond is None:
         return "always"
-    env = envs.get(id(cond))
+    over = env
+    env = env or envs.get(id(cond))
+    if cond["k"] == "Paren":
+        return cond_key(repo, fn, envs, cond["expr"], over)
+    if cond["k"] == "Call":
+        inl = _inline_closure(cond, env)
+        if inl is not None:
+            return cond_key(repo, fn, envs, inl[0], inl[1])
     if cond["k"] == "Let":
         pat = re.sub(r"\b[a-z_][a-z0-9_]*\b(?!::|\{|\()", "_", "".join(repo.text(fn.file, cond["pat"]).split()))
         return f"let {pat} = " + render(cond["expr"], env or envs.get(id(cond["expr"])))
     if cond["k"] == "Binary" and cond["op"] in ("&&", "||"):
-        return "(" + cond_key(repo, fn, envs, cond["left"]) + f" {cond['op']} " + cond_key(repo, fn, envs, cond["right"]) + ")"
+        return "(" + cond_key(repo, fn, envs, cond["left"], over) + f" {cond['op']} " + cond_key(repo, fn, envs, cond["right"], over) + ")"
     if cond["k"] == "Unary" and cond["op"] == "!":
-        return "!" + cond_key(repo, fn, envs, cond["expr"])
+        return "!" + cond_key(repo, fn, envs, cond["expr"], over)
     return render(cond, env)
 
 
@@ -361,36 +392,338 @@ def _exemptions(repo, fn):
     return out
 
 
+# ---- atoms: what an exemption tests, independent of how the test is written ----------------------------------------------------
+ADAPTORS = {"iter", "iter_mut", "into_iter", "enumerate", "map", "filter_map", "flat_map", "cloned", "copied", "keys", "values", "collect", "unwrap", "expect",
+            "windows", "rev", "peekable", "by_ref", "as_ref", "as_str", "borrow", "deref", "to_vec", "as_slice", "ok", "chain", "zip", "from_iter", "into", "to_string",
+            "unwrap_or", "unwrap_or_default", "get", "entry", "or_default", "first", "last", "cmp", "partial_cmp", "then", "then_some", "is_some_and", "map_or", "any", "all",
+            "new", "default", "next", "lookup", "ids", "binary_search", "binary_search_by", "binary_search_by_key"}
+CLASS = {"contains_key": "contains", "is_none": "opt", "is_some": "opt", "is_ok": "res", "is_err": "res",
+         "is_empty": "size", "len": "size"}
+_TOK = re.compile(r"param<[^>]*>(?:\.[a-z_][a-z0-9_]*(?![\w(]))*|<[A-Z]\w*>(?:\.[a-z_][a-z0-9_]*(?![\w(]))*|::[A-Z]\w*\.\w+|\b[A-Z]\w*(?:::[A-Z]\w*)+|\b[A-Z]\w*(?=[({])|'[^']*'|\bTrue\b|\bFalse\b|\.[a-z_]\w*\(|\b[a-z_]\w*\(")
+
+
+def _strip(t):
+    t = t.strip()
+    while True:
+        if t.startswith("!"):
+            t = t[1:].strip()
+            continue
+        if t.startswith("(") and t.endswith(")"):
+            d = 0
+            whole = True
+            for i, ch in enumerate(t):
+                d += ch == "("
+                d -= ch == ")"
+                if d == 0 and i < len(t) - 1:
+                    whole = False
+                    break
+            if whole:
+                t = t[1:-1].strip()
+                continue
+        return t
+
+
+def _split_top(t, seps):
+    parts, d, i, last = [], 0, 0, 0
+    while i < len(t):
+        ch = t[i]
+        if ch in "([{":
+            d += 1
+        elif ch in ")]}":
+            d -= 1
+        elif d == 0:
+            for s in seps:
+                if t.startswith(s, i):
+                    parts.append((t[last:i], s))
+                    i += len(s) - 1
+                    last = i + 1
+                    break
+        i += 1
+    parts.append((t[last:], None))
+    return parts
+
+
+def _outer_method(t):
+    """name of the outermost non-adaptor method / function call of a rendered expression"""
+    d = 0
+    best = None
+    for m in re.finditer(r"[(\[{]|[)\]}]|\.([a-z_]\w*)(?=\()|(?<![\w.>])([a-z_]\w*)(?=\()", t):
+        s = m.group(0)
+        if s in "([{":
+            d += 1
+        elif s in ")]}":
+            d -= 1
+        elif d == 0:
+            name = m.group(1) or m.group(2)
+            if name and name not in ADAPTORS:
+                best = CLASS.get(name, name)
+    return best
+
+
+def _leaf_atoms(t, kind):
+    t = re.sub(r"\s*=> [^&|]*$", "", t.strip())
+    t = _strip(t)
+    if not t or t in ("always", "<lit>", "True", "False", "'true'", "'false'"):
+        return {"always"} if t == "always" else set()
+    for seps in ((" & ",), (" || ", " && ")):
+        ps = _split_top(t, seps)
+        if len(ps) > 1:
+            out = set()
+            for x, _ in ps:
+                out |= _leaf_atoms(x, kind)
+            return out
+    cls = None
+    if t.startswith("arm "):
+        cls, t = "arm", t[4:]
+    elif t.startswith("unless let ") or t.startswith("let "):
+        cls = "pat"
+    else:
+        ps = _split_top(t, (" == ", " != ", " <= ", " >= ", " < ", " > "))
+        if len(ps) == 2:
+            cls = "eq" if ps[0][1].strip() in ("==", "!=") else "ord"
+    toks = set()
+    for m in _TOK.findall(t):
+        if m.endswith("("):
+            name = m.strip(".(")
+            if name in ADAPTORS:
+                continue
+            toks.add(CLASS.get(name, name) + "()")
+        elif re.match(r"<[A-Z]\w*>$", m):
+            continue  # a local shown by its declared type: an annotation, not an origin
+        else:
+            toks.add(re.sub(r"^<[A-Z]\w*>", "<local>", m))
+    if cls is None:
+        cls = _outer_method(t) or (kind if kind in DROPPERS and kind != "filter" else "flag")
+    # index arithmetic (`i + 1`, `0..n`, `x.len() - 1`) is plumbing, not a test
+    toks -= {"'0'", "'1'"}
+    if cls not in ("size", "ord", "eq"):
+        toks.discard("size()")
+    if not toks and cls == "flag":
+        return set()
+    return {cls + "|" + ",".join(sorted(toks))}
+
+
+def atom_known(a, have):
+    """same class of test calling the same predicates / comparing with the same constants, and the origins it reads include or are
+    included in those of a confirmed one (a temporary that is named, inlined or annotated shows more or fewer of the origins behind
+    it; a different test reads different ones)"""
+    if a in have:
+        return True
+
+    def parts(x):
+        cls, _, toks = x.partition("|")
+        t = set(filter(None, toks.split(",")))
+        sem = {k for k in t if k.endswith("()") or k.startswith("'") or k[0].isupper() or k in ("True", "False")}
+        return cls, sem, t - sem
+
+    cls, sem, org = parts(a)
+    for b in have:
+        c2, s2, o2 = parts(b)
+        if c2 == cls and s2 == sem and (org <= o2 or o2 <= org):
+            return True
+    return False
+
+
+def atoms(kind, key):
+    """The set of elementary tests of an exemption's condition: for each leaf of the boolean structure, its class (eq / ord /
+    contains / opt / size / a predicate's name / arm / pat) with the origins it reads (parameters by type with their field path,
+    typed locals, pattern bindings, literals, non-adaptor methods).  Connectives, polarity, the exemption's syntactic kind and the
+    iterator plumbing are left out: rewriting `if c { continue }` as `.filter(|x| !c)`, merging two early returns into one `||`,
+    or naming a sub-test do not change the set; testing something else does."""
+    return _leaf_atoms(key, kind)
+
+
+# ---- boolean shape: the same elementary tests must be combined to the same truth function -----------------------------------------
+S_KINDS = ("skip", "continue", "break", "return-ok", "filter", "skip_while")
+G_KINDS = ("guard", "while", "retain", "take_while")
+
+
+def _bool_tree(t, kind):
+    """rendered condition -> ('and'|'or', [..]) | ('not', x) | ('leaf', atom) | ('true',); None when a leaf's polarity cannot be read"""
+    t = re.sub(r"\s*=> [^&|]*$", "", t.strip()).strip()
+    if t in ("always", ""):
+        return ("true",)
+    ps = _split_top(t, (" & ",))
+    if len(ps) > 1:
+        return ("and", [_bool_tree(x, kind) for x, _ in ps])
+    # strip one pair of enclosing parentheses
+    if t.startswith("(") and t.endswith(")"):
+        d = 0
+        whole = True
+        for i, ch in enumerate(t):
+            d += ch == "("
+            d -= ch == ")"
+            if d == 0 and i < len(t) - 1:
+                whole = False
+                break
+        if whole:
+            return _bool_tree(t[1:-1], kind)
+    for sep, op in ((" || ", "or"), (" && ", "and")):
+        ps = _split_top(t, (sep,))
+        if len(ps) > 1:
+            return (op, [_bool_tree(x, kind) for x, _ in ps])
+    if t.startswith("!"):
+        return ("not", _bool_tree(t[1:], kind))
+    neg = False
+    if t.startswith("unless let "):
+        neg = True
+    ps = _split_top(t, (" == ", " != ", " <= ", " >= ", " < ", " > "))
+    if len(ps) == 2:
+        op = ps[0][1].strip()
+        if op in ("<", "<=", ">", ">="):
+            return None
+        if op == "!=":
+            neg = not neg
+    for pos_s, neg_s in PAIRS:
+        if t.endswith(neg_s):
+            neg = not neg
+    at = _leaf_atoms(t, kind)
+    if len(at) != 1:
+        return None if at else ("true",)
+    # a leaf is identified by its text with the polarity markers taken off (two `contains` tests on different fields are two
+    # variables) and carries its atom for pairing with a differently written leaf
+    ident = _strip(t)
+    ident = re.sub(r" (==|!=) ", " = ", ident)
+    for pos_s, neg_s in PAIRS:
+        if ident.endswith(neg_s):
+            ident = ident[: -len(neg_s)] + pos_s
+    if ident.startswith("unless let "):
+        ident = ident[len("unless "):]
+    leaf = ("leaf", (ident, next(iter(at))))
+    return ("not", leaf) if neg else leaf
+
+
+def _has_none(tr):
+    if tr is None:
+        return True
+    if tr[0] in ("and", "or"):
+        return any(_has_none(x) for x in tr[1])
+    if tr[0] == "not":
+        return _has_none(tr[1])
+    return False
+
+
+def _leaves(tr, out):
+    if tr[0] in ("and", "or"):
+        for x in tr[1]:
+            _leaves(x, out)
+    elif tr[0] == "not":
+        _leaves(tr[1], out)
+    elif tr[0] == "leaf":
+        out.add(tr[1])
+    return out
+
+
+def _ev(tr, val):
+    if tr[0] == "true":
+        return True
+    if tr[0] == "leaf":
+        return val[tr[1]]
+    if tr[0] == "not":
+        return not _ev(tr[1], val)
+    if tr[0] == "and":
+        return all(_ev(x, val) for x in tr[1])
+    return any(_ev(x, val) for x in tr[1])
+
+
+def same_truth_function(kind_a, key_a, kind_b, key_b):
+    """True / False when both conditions are boolean combinations of the same readable leaves; None when that cannot be told"""
+    ta, tb = _bool_tree(key_a, kind_a), _bool_tree(key_b, kind_b)
+    if _has_none(ta) or _has_none(tb):
+        return None
+    la, lb = sorted(_leaves(ta, set())), sorted(_leaves(tb, set()))
+    if len(la) != len(lb) or len(la) > 8:
+        return None
+    # pair the leaves: identical atoms first, then by atom_known
+    m = {}
+    rest = list(lb)
+    for a in la:
+        if a in rest:
+            m[a] = a
+            rest.remove(a)
+    for a in la:
+        if a in m:
+            continue
+        c = [b for b in rest if atom_known(a[1], {b[1]})]
+        if len(c) != 1:
+            return None
+        m[a] = c[0]
+        rest.remove(c[0])
+    sa = any(kind_a.startswith(k) for k in S_KINDS)
+    sb = any(kind_b.startswith(k) for k in S_KINDS)
+    ga = any(kind_a.startswith(k) for k in G_KINDS)
+    gb = any(kind_b.startswith(k) for k in G_KINDS)
+    if not ((sa or ga) and (sb or gb)):
+        return None
+    flip = (sa != sb)
+    import itertools
+    for bits in itertools.product([False, True], repeat=len(la)):
+        va = dict(zip(la, bits))
+        vb = {m[a]: v for a, v in va.items()}
+        if (_ev(ta, va) != _ev(tb, vb)) != flip:
+            return False
+    return True
+
+
 _EXTRA_MOVED = ["check::get_not_depended_on_nonterminals", "check::get_nonterminals_resolution_order", "check::check_subword_spaces", "regex::Regex::check_subwords",
                     "regex::Regex::check_ambiguities", "dfa::DFA::check_ambiguity_best_effort", "check::get_nonterm_refs"]
 
 
 def skips_rule(repo, res, table, only=None, rule="SKIPS", exclude=()):
-    """table: list of {fn, kind, key, why}.  Reports every exemption of a validator that is not listed; a listed exemption that is
-    no longer found is only noted (removing an exemption makes the validator stricter, which no property here forbids)."""
+    """table: list of {fn, kind, key, why}.  Reports every exemption of a validator that is neither listed nor a rewriting of listed
+    ones that are gone; a listed exemption that is no longer found is only noted (removing an exemption makes the validator
+    stricter, which no property here forbids)."""
     vs = validators(repo, extra=EXTRA_VALIDATORS)
     allowed = {}
     for r in table:
         allowed.setdefault((r["fn"], r["kind"], r["key"]), r)
+    mod = lambda q: q.split("::")[0]
+    # pass 1 (all validators, whatever the caller's scope): which rows are still there verbatim -- in their function or, after a helper
+    # was extracted / inlined, in another function of the same module
+    found = {}
+    matched_rows = set()
+    for q, f in sorted(vs.items()):
+        for kind, key, line in exemptions(repo, f):
+            k = (q, kind, key)
+            rk = k if k in allowed else next((x for x in allowed if x[1] == kind and x[2] == key and mod(x[0]) == mod(q)), None)
+            found.setdefault(q, []).append((kind, key, line, rk))
+            if rk is not None:
+                matched_rows.add(rk)
+    gone = {}
+    for k in allowed:
+        if k not in matched_rows:
+            gone.setdefault(mod(k[0]), set()).update(atoms(k[1], k[2]))
     n = 0
-    seen = set()
     for q, f in sorted(vs.items()):
         if (only is not None and q not in only) or q in exclude:
             continue
-        for kind, key, line in exemptions(repo, f):
+        for kind, key, line, rk in found.get(q, []):
             n += 1
-            k = (q, kind, key)
-            seen.add(k)
-            row = allowed.get(k)
-            if row is None:
-                # the same exemption in another function of the same module: code moved into / out of a helper
-                for (rq, rk, rkey), rr in allowed.items():
-                    if rk == kind and rkey == key and rq.split("::")[0] == q.split("::")[0]:
-                        row = rr
-                        break
-            res.check(row is not None, rule, f"{rule}:{q}:{kind}:{key[:120]}", (f"listed exemption: {row['why']}" if row else f"`{kind}` under `{key[:160]}` is not among the exemptions confirmed for this validator: elements it lets through are no longer checked (a mistake there is accepted, or a guard that keeps a later pass safe is skipped)"), f"{f.file}:{line}")
+            ident = f"{rule}:{q}:{kind}:{key[:120]}"
+            if rk is not None:
+                res.ok(rule, ident, f"listed exemption: {allowed[rk]['why']}", f"{f.file}:{line}")
+                continue
+            # not listed verbatim: a rewriting of listed exemptions that disappeared makes the same elementary tests as they did
+            mine = atoms(kind, key)
+            new = sorted(a for a in mine if not atom_known(a, gone.get(mod(q), set())))
+            if not new:
+                # the same tests must also be combined the same way (`||` for `&&`, a dropped `!`, `==` for `!=` keep the tests and change
+                # what is skipped): compare truth functions with each vanished row of this module that makes exactly these tests
+                verdicts = []
+                for k2 in allowed:
+                    if k2 in matched_rows or mod(k2[0]) != mod(q):
+                        continue
+                    a2 = atoms(k2[1], k2[2])
+                    if len(a2) == len(mine) and all(atom_known(a, a2) for a in mine) and all(atom_known(a, mine) for a in a2):
+                        verdicts.append((same_truth_function(kind, key, k2[1], k2[2]), k2))
+                if verdicts and all(v is False for v, _ in verdicts):
+                    res.bad(rule, ident, f"`{kind}` under `{key[:160]}` makes the tests of the listed exemption `{verdicts[0][1][1]}` under `{verdicts[0][1][2][:120]}` (no longer present) but combines them to a different truth function: other elements are let through than the confirmed ones", f"{f.file}:{line}")
+                    continue
+                res.ok(rule, ident, f"not listed verbatim; its elementary tests {sorted(mine)} are those of listed exemptions of this module that are no longer present in their old form: the same exemptions rewritten", f"{f.file}:{line}")
+            else:
+                res.bad(rule, ident, f"`{kind}` under `{key[:160]}` is not among the exemptions confirmed for this validator, and it tests {new}, which no confirmed exemption that has gone missing from this module tested (so it is not one of them rewritten): elements it lets through are no longer checked (a mistake there is accepted, or a guard that keeps a later pass safe is skipped)", f"{f.file}:{line}")
     for k, r in allowed.items():
-        if (only is None or k[0] in only) and k[0] not in exclude and k not in seen:
+        if (only is None or k[0] in only) and k[0] not in exclude and k not in matched_rows:
             res.advisory(f"SKIPS: listed exemption no longer present in {k[0]}: {k[1]} {k[2][:80]}")
     return n
 
